@@ -67,16 +67,27 @@ func ValidateAggregateAndProof(ctx context.Context, signedAgg *phase0.SignedAggr
 		return nil, GossipValidatorResult{REJECT, fmt.Errorf("attestation has no participants")}
 	}
 
-	// [IGNORE] The block being voted for (aggregate.data.beacon_block_root) has been seen (via both gossip and non-gossip sources)
-	// (a client MAY queue aggregates for processing once block is retrieved).
-	// TODO
-
 	// [REJECT] The block being voted for (aggregate.data.beacon_block_root) passes validation.
 	if aggVal.IsBadBlock(att.Data.BeaconBlockRoot) {
 		return nil, GossipValidatorResult{REJECT, errors.New("aggregate voted for invalid block")}
 	}
 
 	ch := aggVal.Chain()
+
+	// [IGNORE] The block being voted for (aggregate.data.beacon_block_root) has been seen (via both gossip and non-gossip sources)
+	// (a client MAY queue aggregates for processing once block is retrieved).
+	blockRef, ok := ch.ByBlock(att.Data.BeaconBlockRoot)
+	if !ok {
+		return nil, GossipValidatorResult{IGNORE, errors.New("aggregate voted for unknown block")}
+	}
+
+	// [REJECT] The aggregate attestation's target block is an ancestor of the block named in the LMD vote --
+	// i.e. get_checkpoint_block(store, aggregate.data.beacon_block_root, aggregate.data.target.epoch) == aggregate.data.target.root
+	if checkpointRoot, err := CheckpointBlock(ctx, spec, blockRef, att.Data.Target.Epoch); err != nil {
+		return nil, GossipValidatorResult{IGNORE, fmt.Errorf("cannot determine checkpoint block of epoch %d for block %s: %w", att.Data.Target.Epoch, att.Data.BeaconBlockRoot, err)}
+	} else if checkpointRoot != att.Data.Target.Root {
+		return nil, GossipValidatorResult{REJECT, fmt.Errorf("target %s is not the checkpoint block %s of epoch %d for block %s", att.Data.Target.Root, checkpointRoot, att.Data.Target.Epoch, att.Data.BeaconBlockRoot)}
+	}
 
 	// [REJECT] The current finalized_checkpoint is an ancestor of the block defined
 	// by aggregate.data.beacon_block_root --
